@@ -16,6 +16,27 @@ CHECKS = {
    technique="Coq proof over a mirror model (no-action-in-check-mode theorems) + differential correspondence against rash_core in-process",
    design="5/C03"),
 }
+CHECKS.update({
+ "C04": dict(
+   text="Theorems, for all contents (any byte string), modes, parameters and worlds: a successful real run of the copy/template/file mirror leaves the declared state (exact content, exact permission bits, absent / directory / regular file) - outside the recorded classes K9; `ok` means no action at all (outside K8) and `changed` means the target observably differs; "
+        "every 3- and 4-digit octal string denotes exactly its value (finite sweep lifted by forallb_forall); pacman reaches the declared package sets and reports changed iff the database changes (outside K19). _refuted witnesses for K8/K9/K19 are proved by vm_compute. "
+        "Tie: mirror vs rash_core on the product space + every octal mode (sampled in quick), and the Coq predicate declared_b is evaluated on the implementation's own before/after snapshots.",
+   note=NOTE_COMMON + "Scope restrictions of the theorems: source and destination are different files (no_alias), file paths non-empty. Modelled not verified: StateMods.v, Pacman.v, Fs.v. Known findings K8, K9, K19 are suppressed by class only.",
+   technique="Coq proof (declared-state, changed-iff, octal sweep) over a mirror model + differential correspondence; Coq spec predicate judged on implementation snapshots",
+   design="5/C04"),
+ "C05": dict(
+   text="Theorems: after any successful real run the identical copy/template/file task, run on the world it left, returns ok with the action log untouched (so no write, chmod, create or unlink and hence no timestamp change); pacman has nothing left to install/remove (outside K19); a pass over tasks that are stable in the reached world is a no-op. "
+        "Tie: every product case applied twice and random sequences applied twice on the real file system with mtime/ctime snapshots; mirror must agree step by step.",
+   note=NOTE_COMMON + "Sequence convergence is proved only from per-task stability in the final world; that a pass makes every task stable (non-interference of tasks on distinct paths) is what the sequence runs test.",
+   technique="Coq proof (idempotence via declared-state fixed point) over a mirror model + differential correspondence with timestamp snapshots",
+   design="5/C05"),
+ "C06": dict(
+   text="Theorems: whenever the check-mode run and the real run of the copy/template/file mirror both succeed they report the same changed flag (outside K8), check-mode ok implies the real run performs no action; the pacman mirror reports identical changed/installed/removed/upgraded in both modes (after the fix of K10). "
+        "Tie: each product case is run twice on identical sandboxes (check vs real) against rash_core and the mirror.",
+   note=NOTE_COMMON + "tmpfile mode is a model parameter (all values); runs where exactly one of the two fails are counted, not judged.",
+   technique="Coq proof (check/real decision equivalence) over a mirror model + paired differential runs",
+   design="5/C06"),
+})
 REASONS = {p: "not yet built in this revision (see DESIGN.md section 9b build order)" for p in ALL}
 
 def main():
